@@ -179,3 +179,8 @@ package qr
 //@ func (*qrcode).At
 //@   requires qr != nil && qr.data != nil && 0 <= x && x < qr.dimension && 0 <= y && y < qr.dimension && qr.dimension <= 1000 && qr.data.count == qr.dimension * qr.dimension
 //@   ensures result == (qr.data.model[x*qr.dimension + y] ? qr.color.Foreground : qr.color.Background)
+
+// ---- mode dispatch: every defined mode constant has an encoder (a nil func value would panic at
+// the call in EncodeWithColor, C10)
+//@ func (Encoding).getEncoder
+//@   ensures (e == Auto || e == Numeric || e == AlphaNumeric || e == Unicode) ==> result != nil
